@@ -267,6 +267,57 @@ fn observe<S>(
     }
 }
 
+/// Snapshot / restore as a public call: `roundtrip` serialises the object and builds a new one
+/// from the bytes (serde_json), returning the restored object's occupancy per manager.
+/// Oracle (model-independent): every restored manager has the occupancy its original had
+/// before the snapshot, which is the occupancy of a fresh pool (capacities at rest); the round
+/// trip itself performs no pool event. The model side: kind `restore` (grammar ε) must predict
+/// the restored occupancy from the occupancy before, and `caps` must equal it.
+fn observe_restore(out: &mut Out, label: &str, before: Vec<Vec<usize>>, roundtrip: impl FnOnce() -> Result<Vec<Vec<usize>>, String>) -> bool {
+    let _ = verif_log::take();
+    let r = catch(roundtrip);
+    let log = verif_log::take();
+    let fresh = snap(&FastOps::new_from_nvars(1));
+    out.count("kind_restore");
+    let restored = match r {
+        Ok(Ok(v)) => v,
+        Ok(Err(e)) => {
+            emit(false, &format!("pool restore {} - {}", list(&before[0]), label), "1 E E", Some(Err(format!("{}: round trip failed: {}", label, e))));
+            return false;
+        }
+        Err(msg) => {
+            emit(false, &format!("pool restore {} - {}", list(&before[0]), label), "1 P P", Some(Err(format!("{}: round trip panicked: {}", label, msg))));
+            return false;
+        }
+    };
+    let mut ok = true;
+    for (i, b) in before.iter().enumerate() {
+        let info = analyse(&log, b);
+        let mut problems = info.problems.clone();
+        let after = restored.get(i).cloned().unwrap_or_default();
+        if restored.len() != before.len() {
+            problems.push(format!("{} managers before, {} after the round trip", before.len(), restored.len()));
+        }
+        if &after != b {
+            problems.push(format!("restored occupancy {} differs from the occupancy before the snapshot {}", list(&after), list(b)));
+        }
+        if after != fresh {
+            problems.push(format!("restored occupancy {} differs from a fresh pool's {}", list(&after), list(&fresh)));
+        }
+        ok &= problems.is_empty();
+        let oracle = if problems.is_empty() { Ok(()) } else { Err(format!("{}#{}: {}", label, i, problems.join("; "))) };
+        emit(false, &format!("pool restore {} {} {}#{}", list(b), info.word, label, i), &format!("1 {} {}", list(&after), list(&after)), Some(oracle.clone()));
+        // occupancy at rest of a restored pool = the capacities the proofs were checked against
+        emit(false, &format!("caps {}#{}", label, i), &list(&after), Some(oracle));
+    }
+    ok
+}
+
+fn json_roundtrip<T: serde::Serialize + serde::de::DeserializeOwned>(x: &T) -> Result<T, String> {
+    let s = serde_json::to_string(x).map_err(|e| format!("serialize: {}", e))?;
+    serde_json::from_str(&s).map_err(|e| format!("deserialize: {}", e))
+}
+
 // ---------------------------------------------------------------------------------------------
 // scenarios
 // ---------------------------------------------------------------------------------------------
@@ -400,12 +451,14 @@ fn ising_scenarios(out: &mut Out, gen: &mut SplitMix64, thorough: bool) {
         let diag_kind = if hb { "heatbath" } else { "diag" };
         let mut alive = true;
         // the very first calls hit the empty operator string
-        let mut script: Vec<u8> = vec![2, 3, 1, 0];
+        // 9 = serde round trip with the RNG, 10 = through the RNG-less SerializeQmcGraph: right after
+        // construction, right after an RVB sweep, and later at random points
+        let mut script: Vec<u8> = vec![9, 2, 3, 10, 1, 0, 3, 9];
         for ci in 0..calls {
             if !alive {
                 break;
             }
-            let what = if ci < script.len() { script[ci] } else { gen.below(9) as u8 };
+            let what = if ci < script.len() { script[ci] } else { gen.below(11) as u8 };
             let lab = |s: &str| format!("{}:call{}:{}", tag, ci, s);
             alive = match what {
                 0 => observe(out, step_kind, &lab("timestep"), &mut g, snap_ig, |g| {
@@ -454,6 +507,41 @@ fn ising_scenarios(out: &mut Out, gen: &mut SplitMix64, thorough: bool) {
                     manager_level(out, &lab("mgr"), g.get_manager_ref(), &g.clone_state(), gen);
                     true
                 }
+                9 => {
+                    // the run continues on the RESTORED sampler, so every later call exercises its pool
+                    let before = vec![snap_ig(&g)];
+                    let mut restored: Option<IG> = None;
+                    let ok = observe_restore(out, &lab("serde_json(QmcIsingGraph)"), before, || {
+                        let g2: IG = json_roundtrip(&g)?;
+                        let v = vec![snap_ig(&g2)];
+                        restored = Some(g2);
+                        Ok(v)
+                    });
+                    if let Some(g2) = restored {
+                        g = g2;
+                    }
+                    let _ = ok;
+                    true
+                }
+                10 => {
+                    use qmc::sse::qmc_ising::serialization::DefaultSerializeQmcGraph;
+                    let before = vec![snap_ig(&g)];
+                    let seed2 = gen.next();
+                    let mut slot: Option<IG> = None;
+                    let sg: DefaultSerializeQmcGraph = g.into();
+                    let _ = observe_restore(out, &lab("serde_json(SerializeQmcGraph).into_qmc"), before, || {
+                        let sg2: DefaultSerializeQmcGraph = json_roundtrip(&sg)?;
+                        let g2: IG = sg2.into_qmc(SplitMix64::new(seed2));
+                        let v = vec![snap_ig(&g2)];
+                        slot = Some(g2);
+                        Ok(v)
+                    });
+                    g = match slot {
+                        Some(g2) => g2,
+                        None => sg.into_qmc(SplitMix64::new(seed2)),
+                    };
+                    true
+                }
                 _ => observe(out, "nopool", &lab("set_cutoff/getters"), &mut g, snap_ig, |g| {
                     let c = g.get_cutoff();
                     g.set_cutoff(c + 1);
@@ -475,6 +563,19 @@ fn manager_level(out: &mut Out, tag: &str, m0: &FastOps, state: &[bool], gen: &m
     let nvars = m0.get_nvars();
     let mut m = m0.clone();
     let lab = |s: &str| format!("{}:{}", tag, s);
+    if gen.coin() {
+        let before = vec![snap(&m)];
+        let mut slot: Option<FastOps> = None;
+        let _ = observe_restore(out, &lab("serde_json(FastOps)"), before, || {
+            let m2: FastOps = json_roundtrip(&m)?;
+            let v = vec![snap(&m2)];
+            slot = Some(m2);
+            Ok(v)
+        });
+        if let Some(m2) = slot {
+            m = m2; // all following manager-level calls run on the restored manager
+        }
+    }
     // mutate_ops over everything / a sub range, no-op callback
     if cutoff == 0 {
         return;
@@ -665,12 +766,13 @@ fn generic_scenarios(out: &mut Out, gen: &mut SplitMix64, thorough: bool) {
         out.count(if loops { "scen_generic_loops" } else { "scen_generic_noloops" });
         let diag_kind = if hb { "heatbath" } else { "diag" };
         let mut alive = true;
-        let mut script: Vec<u8> = vec![2, 3, 0];
+        // 8 = serde round trip of the sampler (right after construction, then at random points)
+        let mut script: Vec<u8> = vec![8, 2, 3, 0, 8];
         for ci in 0..calls {
             if !alive {
                 break;
             }
-            let what = if ci < script.len() { script[ci] } else { gen.below(8) as u8 };
+            let what = if ci < script.len() { script[ci] } else { gen.below(9) as u8 };
             let lab = |s: &str| format!("{}:call{}:{}", tag, ci, s);
             alive = match what {
                 0 => observe(out, "gstep", &lab("timestep"), &mut q, snap_gq, |q| {
@@ -727,6 +829,20 @@ fn generic_scenarios(out: &mut Out, gen: &mut SplitMix64, thorough: bool) {
                         })
                     }
                 }
+                8 => {
+                    let before = vec![snap_gq(&q)];
+                    let mut slot: Option<GQ> = None;
+                    let _ = observe_restore(out, &lab("serde_json(Qmc)"), before, || {
+                        let q2: GQ = json_roundtrip(&q)?;
+                        let v = vec![snap_gq(&q2)];
+                        slot = Some(q2);
+                        Ok(v)
+                    });
+                    if let Some(q2) = slot {
+                        q = q2;
+                    }
+                    true
+                }
                 _ => observe(out, "nopool", &lab("flip_free_bits/set_cutoff"), &mut q, snap_gq, |q| {
                     q.flip_free_bits();
                     let c = q.get_cutoff();
@@ -768,6 +884,39 @@ fn tempering_scenarios(out: &mut Out, gen: &mut SplitMix64, thorough: bool) {
         let mut usable = true;
         for ci in 0..(if thorough { 30 } else { 12 }) {
             let lab = |s: &str| format!("{}:call{}:{}", tag, ci, s);
+            // snapshot / restore of the whole container: right after construction, then now and again;
+            // alternately with its RNGs and through the RNG-less SerializeTemperingContainer
+            if ci == 0 || ci == 5 || gen.chance(1, 6) {
+                let before = snap_all(&tc);
+                if ci % 2 == 0 {
+                    let mut slot: Option<TC> = None;
+                    let _ = observe_restore(out, &lab("serde_json(TemperingContainer)"), before, || {
+                        let tc2: TC = json_roundtrip(&tc)?;
+                        let v = snap_all(&tc2);
+                        slot = Some(tc2);
+                        Ok(v)
+                    });
+                    if let Some(tc2) = slot {
+                        tc = tc2;
+                    }
+                } else {
+                    use qmc::sse::parallel_tempering::serialization::DefaultSerializeTemperingContainer;
+                    let seeds: Vec<u64> = (0..nrep + 1).map(|_| gen.next()).collect();
+                    let mut slot: Option<TC> = None;
+                    let stc: DefaultSerializeTemperingContainer = tc.into();
+                    let _ = observe_restore(out, &lab("serde_json(SerializeTemperingContainer).into_tempering_container"), before, || {
+                        let stc2: DefaultSerializeTemperingContainer = json_roundtrip(&stc)?;
+                        let tc2: TC = stc2.into_tempering_container_from_vec(SplitMix64::new(seeds[0]), seeds[1..].iter().map(|s| SplitMix64::new(*s)).collect());
+                        let v = snap_all(&tc2);
+                        slot = Some(tc2);
+                        Ok(v)
+                    });
+                    tc = match slot {
+                        Some(tc2) => tc2,
+                        None => stc.into_tempering_container_from_vec(SplitMix64::new(seeds[0]), seeds[1..].iter().map(|s| SplitMix64::new(*s)).collect()),
+                    };
+                }
+            }
             // all replicas must keep their occupancy; replica 0's numbers go to the model
             let all_before = snap_all(&tc);
             let swaps_before = tc.get_total_swaps();
